@@ -135,10 +135,47 @@ def run(facts):
             return None
         # unsplit: append only when try_unsplit reported Err
         if root.endswith("::unsplit"):
-            for r in rels:
-                if r[0] in ("truth", "notin", "eq"):
-                    if "try_unsplit" in str(canon(r[1])):
-                        return "Err edge of the merge (halves not adjacent)"
+            merged_failed = any(r[0] in ("truth", "notin", "eq") and "try_unsplit" in str(canon(r[1])) for r in rels)
+            # .. and only when `self` holds something: an empty handle takes `other` over as it is (no copy, no allocation - the documented
+            # O(1) way to glue parts onto a fresh or cleared handle, which a recycling loop relies on, C18)
+            def self_len(e):
+                e = canon(e)
+                while isinstance(e, tuple) and e and e[0] in ("ref", "deref"):
+                    e = e[1]
+                if isinstance(e, tuple) and e and e[0] == "field" and e[2] == "len":
+                    x = e[1]
+                    while isinstance(x, tuple) and x and x[0] in ("ref", "deref"):
+                        x = x[1]
+                    return x == ("param", 1)
+                if isinstance(e, tuple) and e and e[0] == "call" and e[1].rsplit("::", 1)[-1] == "len" and e[2]:
+                    x = e[2][0]
+                    while isinstance(x, tuple) and x and x[0] in ("ref", "deref"):
+                        x = x[1]
+                    return x == ("param", 1)
+                return False
+            nonempty = False
+            # (judged where the merge is attempted: the attempt itself takes `&mut self`, after it the guard is no fresh fact any more)
+            rels_ne = list(rels)
+            for cbi, ct in b.calls():
+                cfn = callee(ct)
+                if cfn is not None and cfn["name"] == "try_unsplit" and not b.blocks[cbi]["cleanup"] and cfg_of(b).dominates(cbi, bi):
+                    rels_ne += relations_at(b, cbi, facts, inline=True)
+            for r in rels_ne:
+                if r[0] == "truth" and isinstance(r[1], tuple) and r[1] and r[1][0] == "call" and r[1][1].rsplit("::", 1)[-1] == "is_empty" and r[2] == 0:
+                    x = canon(r[1][2][0])
+                    while isinstance(x, tuple) and x and x[0] in ("ref", "deref"):
+                        x = x[1]
+                    nonempty = nonempty or x == ("param", 1)
+                if len(r) > 2 and isinstance(r[1], tuple) and isinstance(r[2], tuple):
+                    a_, b_ = canon(r[1]), canon(r[2])
+                    if r[0] == "ne" and ((self_len(a_) and b_ == ("const", 0)) or (self_len(b_) and a_ == ("const", 0))):
+                        nonempty = True
+                    if r[0] == "lt" and a_ == ("const", 0) and self_len(b_):
+                        nonempty = True
+            if merged_failed and nonempty and b.id == root:
+                return "Err edge of the merge (halves not adjacent), self not empty"
+            if merged_failed and b.id != root:
+                return "Err edge of the merge (halves not adjacent)"
             return None
         return None
 
@@ -221,7 +258,15 @@ def run(facts):
                     st.append(dd)
 
     n = 0
-    for z in ZERO_COPY:
+    # every method of `impl Clone for Bytes` is a zero-copy operation (`clone_from` must share, as `clone` does)
+    more = []
+    for im in facts.impls:
+        if (im.get("trait") or "") == "core::clone::Clone" and im["self_ty"] == "bytes::Bytes":
+            for it in im["items"]:
+                bb_ = facts.by_did.get(it.get("did"))
+                if bb_ is not None and bb_.id not in ZERO_COPY:
+                    more.append(bb_.id)
+    for z in ZERO_COPY + more:
         cands = facts.by_id.get(z, [])
         if len(cands) != 1:
             res.bad(z, "-", "zero-copy operation not found (renamed?)")
